@@ -1,4 +1,5 @@
 import St4sd.Model.Env
+import St4sd.Model.C17Vars
 import St4sd.Lemmas.C15Assoc
 /-!
 # C17 — Component environments are built only from their declared sources
@@ -661,5 +662,306 @@ example : tokT .normal "$A".toList = [.ref "A".toList "$A".toList] := by decide
 example : envForNode sys0 (instEnvs envs0 "plat".toList) "plat".toList launch0 (some "MYENV".toList) true =
     .ok [("INSTANCE_DIR".toList, "/i".toList), ("A".toList, "2".toList), ("B".toList, "2/x".toList),
          ("C".toList, "LL".toList), ("FOO".toList, "foo".toList), ("PATH".toList, "/bin".toList)] := by decide
+
+/-! ### `%(name)s` references (`Model/C17Vars.lean`) -/
+
+private theorem render_lits_append (lk : S → Option S) (a : S) (ts : List Tok) :
+    render lk (lits a ++ ts) = a ++ render lk ts := by
+  induction a with
+  | nil => rfl
+  | cons c r ih => simp only [lits, List.map_cons, List.cons_append, render] at ih ⊢; rw [ih]
+
+private theorem render_lits (lk : S → Option S) (a : S) : render lk (lits a) = a := by
+  have := render_lits_append lk a []
+  simpa [render] using this
+
+/-- **tokV_lossless.**  The `%(name)s` tokeniser loses nothing: rendering the tokens with no variable defined
+gives back the text (every reference keeps its own spelling). -/
+theorem tokV_lossless (st : ScV) (s : S) : render (fun _ => none) (tokV st s) = pendV st ++ s := by
+  induction s generalizing st with
+  | nil => cases st <;> simp [tokV, render_lits]
+  | cons c cs ih =>
+    cases st with
+    | normal =>
+      simp only [tokV]
+      split
+      · rename_i h
+        have : c = '%' := by simpa using h
+        subst this
+        rw [ih]; rfl
+      · simp only [render, ih]; rfl
+    | pct =>
+      simp only [tokV]
+      split
+      · rename_i h
+        have : c = '(' := by simpa using h
+        subst this
+        rw [ih]; simp [pendV]
+      · simp only [render]
+        split
+        · rename_i h
+          have : c = '%' := by simpa using h
+          subst this
+          rw [ih]; simp [pendV]
+        · simp only [render, ih]; simp [pendV]
+    | name acc =>
+      simp only [tokV]
+      split
+      · rw [ih]; simp [pendV]
+      · split
+        · rename_i h
+          have hc : c = ')' := by
+            have := (Bool.and_eq_true _ _).mp h
+            simpa using this.1
+          subst hc
+          rw [ih]; simp [pendV]
+        · rw [render_lits_append]
+          split
+          · rename_i h
+            have : c = '%' := by simpa using h
+            subst this
+            rw [ih]; simp [pendV]
+          · simp only [render, ih]; simp [pendV]
+    | close acc =>
+      simp only [tokV]
+      split
+      · rename_i h
+        have : c = 's' := by simpa using h
+        subst this
+        simp only [render, ih]; simp [pendV]
+      · rw [render_lits_append]
+        split
+        · rename_i h
+          have : c = '%' := by simpa using h
+          subst this
+          rw [ih]; simp [pendV]
+        · simp only [render, ih]; simp [pendV]
+
+private theorem renderStrict_congr (lk₁ lk₂ : S → Option S) (safe : S → Bool) (ts : List Tok)
+    (h : ∀ n ∈ refNames ts, lk₁ n = lk₂ n) : renderStrict lk₁ safe ts = renderStrict lk₂ safe ts := by
+  induction ts with
+  | nil => rfl
+  | cons t r ih =>
+    cases t with
+    | lit c => simp only [renderStrict]; rw [ih (fun n hn => h n (by simpa [refNames] using hn))]
+    | ref n o =>
+      simp only [renderStrict]
+      rw [h n (by simp [refNames]), ih (fun m hm => h m (by simp [refNames, hm]))]
+
+private theorem renderStrict_no_refs (lk : S → Option S) (safe : S → Bool) (ts : List Tok)
+    (h : refNames ts = []) : renderStrict lk safe ts = some (render lk ts) := by
+  induction ts with
+  | nil => rfl
+  | cons t r ih =>
+    cases t with
+    | lit c => simp only [refNames] at h; simp [renderStrict, render, ih h]
+    | ref n o => simp [refNames] at h
+
+/-- **value_without_references_unchanged.**  A value that contains no `%(name)s` reference is what it is, in
+every context, strict or not: for such values the model of this file is the model of `Model/Env.lean`. -/
+theorem value_without_references_unchanged (ctx : Dict) (safe : S → Bool) (fuel : Nat) (v : S)
+    (h : refNames (tokV .normal v) = []) :
+    interpKeep ctx safe fuel v = v ∧ interpStrict ctx safe fuel v = some v := by
+  have h1 : interpKeep ctx safe fuel v = v := by
+    unfold interpKeep
+    rw [render_congr _ (fun _ => none) _ (by rw [h]; simp), tokV_lossless]; rfl
+  refine ⟨h1, ?_⟩
+  unfold interpStrict
+  rw [renderStrict_no_refs _ _ _ h]
+  exact congrArg some h1
+
+/-- **resolution_reads_only_reachable_variables.**  The resolved value of a variable depends on the context only
+through the variables reachable from it by references: two contexts that agree on a set `R` of names which is
+closed under "is referenced by the text of" give the same answer for every name of `R` (with any fuel). -/
+theorem resolution_reads_only_reachable_variables (c₁ c₂ : Dict) (safe : S → Bool) (R : S → Prop)
+    (hagree : ∀ n, R n → dget c₁ n = dget c₂ n)
+    (hclosed : ∀ n v, R n → dget c₁ n = some v → ∀ m ∈ refNames (tokV .normal v), R m)
+    (fuel : Nat) (n : S) (hn : R n) : resolveV c₁ safe fuel n = resolveV c₂ safe fuel n := by
+  induction fuel generalizing n with
+  | zero => rfl
+  | succ f ih =>
+    simp only [resolveV]
+    rw [← hagree n hn]
+    cases hv : dget c₁ n with
+    | none => rfl
+    | some v => exact renderStrict_congr _ _ safe _ (fun m hm => ih m (hclosed n v hn hv m hm))
+
+/-- … hence the interpolated text of a value whose references lie in `R` -/
+theorem interpolation_reads_only_reachable_variables (c₁ c₂ : Dict) (safe : S → Bool) (R : S → Prop)
+    (hagree : ∀ n, R n → dget c₁ n = dget c₂ n)
+    (hclosed : ∀ n v, R n → dget c₁ n = some v → ∀ m ∈ refNames (tokV .normal v), R m)
+    (fuel : Nat) (v : S) (hv : ∀ m ∈ refNames (tokV .normal v), R m) :
+    interpKeep c₁ safe fuel v = interpKeep c₂ safe fuel v ∧
+      interpStrict c₁ safe fuel v = interpStrict c₂ safe fuel v := by
+  have h : ∀ m ∈ refNames (tokV .normal v), resolveV c₁ safe fuel m = resolveV c₂ safe fuel m :=
+    fun m hm => resolution_reads_only_reachable_variables c₁ c₂ safe R hagree hclosed fuel m (hv m hm)
+  exact ⟨render_congr _ _ _ h, renderStrict_congr _ _ safe _ h⟩
+
+private theorem dget_map_val (f : Dict → Dict) (l : List (S × Dict)) (n : S) :
+    dget (l.map fun ne => (ne.1, f ne.2)) n = (dget l n).map f := by
+  induction l with
+  | nil => rfl
+  | cons e r ih =>
+    simp only [List.map_cons, dget]
+    split <;> simp [ih]
+
+private theorem dget_map_text (f : S → S) (l : Dict) (k : S) :
+    dget (l.map fun kv => (kv.1, f kv.2)) k = (dget l k).map f := by
+  induction l with
+  | nil => rfl
+  | cons e r ih =>
+    simp only [List.map_cons, dget]
+    split <;> simp [ih]
+
+/-- **instance_env_from_own_entries_and_globals.**  In the instance document, the environment called `n` is the
+(layered) environment `n` of the package with every value interpolated in the context *global variables of the
+platform overlaid by that environment's own entries* — whatever other environments the package declares, in
+whatever order. -/
+theorem instance_env_from_own_entries_and_globals (e : Envs) (vars : Vars) (plat : S) (safe : S → Bool) (n : S) :
+    dget (flatEnvsV e vars plat safe) n =
+      (dget (flatEnvs e plat) n).map (fillEnvInst (instGlobals vars plat safe) safe) := by
+  unfold flatEnvsV
+  exact dget_map_val _ _ n
+
+/-- … key by key: the text of entry `k`, interpolated with the environment itself and then with
+`global variables ∪ own entries` (own entries shadow global variables of the same name, `dget_dupdate`). -/
+theorem instance_env_value (g : Dict) (safe : S → Bool) (env : Dict) (k : S) :
+    dget (fillEnvInst g safe env) k =
+      (dget env k).map fun v =>
+        interpKeep (dupdate g env) safe (fuelFor (dupdate g env)) (interpKeep env safe (fuelFor env) v) := by
+  unfold fillEnvInst fillKeep
+  rw [dget_map_text, dget_map_text]
+  cases dget env k <;> rfl
+
+/-- own entries shadow global variables in the interpolation context of an environment -/
+theorem own_entries_shadow_globals (g env : Dict) (k v : S) (h : dgetLast env k = some v) :
+    dget (dupdate g env) k = some v := by
+  rw [dget_dupdate, h]
+
+/-- … and a name the environment does not define is looked up in the global variables only -/
+theorem other_names_from_globals (g env : Dict) (k : S) (h : dget env k = none) :
+    dget (dupdate g env) k = dget g k := by
+  have : dgetLast env k = none := by
+    cases hl : dgetLast env k with
+    | none => rfl
+    | some w =>
+      have := dgetLast_isSome_iff_dget env k
+      simp [hl, h] at this
+  rw [dget_dupdate, this]
+
+private theorem getEnv_mkInst (flat : List (S × Dict)) (nm plat : S) (h : (lower nm == sNone) = false) :
+    getEnv (mkInstEnvs plat flat) nm plat = match dget flat (lower nm) with
+      | some x => .ok (dupdate [] x)
+      | none => .error .unknownEnv := by
+  unfold getEnv mkInstEnvs
+  by_cases hp : (plat == sDefault) = true
+  · have hp' : plat = sDefault := by simpa using hp
+    subst hp'
+    simp only [BEq.rfl, if_true, platEnv_of_named _ _ _ h, dget, Option.getD_some]
+    cases dget flat (lower nm) <;> rfl
+  · have hp2 : (sDefault == plat) = false := by
+      cases hx : (sDefault == plat) with
+      | false => rfl
+      | true => exact absurd (by simpa using hx : sDefault = plat) (fun x => hp (by simp [x]))
+    simp only [hp, Bool.false_eq_true, if_false, platEnv_of_named _ _ _ h, dget, hp2, BEq.rfl, if_true,
+      Option.getD_some]
+    cases dget flat (lower nm) <;> rfl
+
+private theorem platEnv_lookup_eq (e₁ e₂ : Envs) (nm plat : S) (h : (lower nm == sNone) = false)
+    (heq : platEnv e₁ nm plat = platEnv e₂ nm plat) :
+    dget ((dget e₁ plat).getD []) (lower nm) = dget ((dget e₂ plat).getD []) (lower nm) := by
+  rw [platEnv_of_named e₁ nm plat h, platEnv_of_named e₂ nm plat h] at heq
+  cases h1 : dget ((dget e₁ plat).getD []) (lower nm) <;>
+    cases h2 : dget ((dget e₂ plat).getD []) (lower nm) <;> simp_all
+
+/-- **instance_env_independent_of_other_envs.**  Two packages that declare the same environment `nm` for the
+selected platform and for the default platform (and the same global variables) have the same environment `nm` in
+their instance documents — whatever else they declare: other environments (defining, for instance, variables
+whose names collide with global variables that `nm` references), in any order. -/
+theorem instance_env_independent_of_other_envs (e₁ e₂ : Envs) (vars : Vars) (nm plat : S) (safe : S → Bool)
+    (hp : platEnv e₁ nm plat = platEnv e₂ nm plat) (hd : platEnv e₁ nm sDefault = platEnv e₂ nm sDefault) :
+    getEnv (instDoc ⟨e₁, vars⟩ plat safe).envs nm plat = getEnv (instDoc ⟨e₂, vars⟩ plat safe).envs nm plat := by
+  by_cases hn : (lower nm == sNone) = true
+  · have h1 : ∀ (e' : Envs) (pl : S), platEnv e' nm pl = .ok [] := fun e' pl => by simp [platEnv, hn]
+    unfold getEnv
+    simp only [h1]
+  · have hn' : (lower nm == sNone) = false := by simpa using hn
+    simp only [instDoc]
+    rw [getEnv_mkInst _ nm plat hn', getEnv_mkInst _ nm plat hn',
+      instance_env_from_own_entries_and_globals, instance_env_from_own_entries_and_globals,
+      dget_flatEnvs, dget_flatEnvs]
+    have h1 := platEnv_lookup_eq e₁ e₂ nm plat hn' hp
+    have h2 := platEnv_lookup_eq e₁ e₂ nm sDefault hn' hd
+    by_cases hpd : (plat == sDefault) = true
+    · simp only [hpd, if_true, h1]
+    · simp only [hpd, Bool.false_eq_true, if_false, h1, h2]
+
+/-- the answer of `environmentForNode` depends on the document only through the environment the name selects
+(on the selected and the default platform) and the global variables -/
+theorem envForNodeV_congr (sys : Dict) (d₁ d₂ : Doc) (plat : S) (launch : Dict) (name : Option S)
+    (interp prim : Bool) (hv : d₁.vars = d₂.vars)
+    (he : getEnv d₁.envs (normName name) plat = getEnv d₂.envs (normName name) plat) :
+    envForNodeV sys d₁ plat launch name interp prim = envForNodeV sys d₂ plat launch name interp prim := by
+  have hsel : selected d₁.envs plat launch name = selected d₂.envs plat launch name := by
+    unfold selected defaultEnv
+    by_cases h1 : (normName name == sEnvironment) = true
+    · have : normName name = sEnvironment := by simpa using h1
+      rw [this] at he
+      simp only [h1, if_true, he]
+    · simp only [h1, Bool.false_eq_true, if_false, he]
+  unfold envForNodeV envWithName
+  rw [hsel, hv]
+
+/-- **task_env_independent_of_other_envs.**  What a task of a replicated experiment gets does not depend on the
+environments its component does not select: two packages that agree on the selected environment (on the selected
+and on the default platform) and on the global variables give the same `environmentForNode`, value by value. -/
+theorem task_env_independent_of_other_envs (sys : Dict) (e₁ e₂ : Envs) (vars : Vars) (plat : S) (launch : Dict)
+    (name : Option S) (interp prim : Bool) (safe : S → Bool)
+    (hp : platEnv e₁ (normName name) plat = platEnv e₂ (normName name) plat)
+    (hd : platEnv e₁ (normName name) sDefault = platEnv e₂ (normName name) sDefault) :
+    envForNodeV sys (instDoc ⟨e₁, vars⟩ plat safe) plat launch name interp prim =
+      envForNodeV sys (instDoc ⟨e₂, vars⟩ plat safe) plat launch name interp prim :=
+  envForNodeV_congr sys _ _ plat launch name interp prim rfl
+    (instance_env_independent_of_other_envs e₁ e₂ vars (normName name) plat safe hp hd)
+
+/-- the same for a primitive configuration (which reads the package itself) -/
+theorem primitive_task_env_independent_of_other_envs (sys : Dict) (e₁ e₂ : Envs) (vars : Vars) (plat : S)
+    (launch : Dict) (name : Option S) (interp prim : Bool)
+    (hp : platEnv e₁ (normName name) plat = platEnv e₂ (normName name) plat)
+    (hd : platEnv e₁ (normName name) sDefault = platEnv e₂ (normName name) sDefault) :
+    envForNodeV sys ⟨e₁, vars⟩ plat launch name interp prim = envForNodeV sys ⟨e₂, vars⟩ plat launch name interp prim := by
+  refine envForNodeV_congr sys ⟨e₁, vars⟩ ⟨e₂, vars⟩ plat launch name interp prim rfl ?_
+  show getEnv e₁ (normName name) plat = getEnv e₂ (normName name) plat
+  unfold getEnv
+  rw [hp, hd]
+
+/-- sessions with `%(name)s` references: every answer is the answer of a fresh object -/
+theorem env_call_sequence_independent_V (launch : Dict) (c : ConfV) (calls : List Call) :
+    runCallsV launch c calls = calls.map (answerV launch c) := by
+  induction calls with
+  | nil => rfl
+  | cons call rest ih => simp only [runCallsV, stepV, List.map_cons, ih]
+
+/-! non-vacuity: the package of `Witness/C17.lean` (`a_tools` defines `prefix`, `b_tools` references the global
+variable `prefix`), platform `cluster`, replicated and primitive -/
+
+private def envsV : Envs := loadEnvs
+  [("default".toList, [("a_tools".toList, [("prefix".toList, "/opt/a".toList), ("BIN_A".toList, "%(prefix)s/bin".toList)]),
+                       ("b_tools".toList, [("BIN_B".toList, "%(prefix)s/bin".toList)])]),
+   ("cluster".toList, [("B_Tools".toList, [("LIB_B".toList, "%(prefix)s/lib:$BIN_B".toList)])])]
+private def varsV : Vars :=
+  [("default".toList, [("prefix".toList, "/global".toList)]), ("cluster".toList, [("prefix".toList, "/cluster".toList)])]
+
+example : envForNodeV sys0 (instDoc ⟨envsV, varsV⟩ "cluster".toList (safeOf false)) "cluster".toList launch0
+    (some "B_TOOLS".toList) false false =
+    .ok [("INSTANCE_DIR".toList, "/i".toList), ("BIN_B".toList, "/cluster/bin".toList),
+         ("LIB_B".toList, "/cluster/lib:/cluster/bin".toList)] := by decide
+example : envForNodeV sys0 ⟨envsV, varsV⟩ "cluster".toList launch0 (some "a_tools".toList) false true =
+    .ok [("INSTANCE_DIR".toList, "/i".toList), ("prefix".toList, "/opt/a".toList),
+         ("BIN_A".toList, "/opt/a/bin".toList)] := by decide
+example : envForNodeV sys0 ⟨loadEnvs [("default".toList, [("e".toList, [("K".toList, "%(nosuch)s".toList)])])], []⟩
+    "default".toList launch0 (some "e".toList) false false = .error .unknownVar := by decide
+example : tokV .normal "a%(x-1)s%(".toList =
+    [.lit 'a', .ref "x-1".toList "%(x-1)s".toList, .lit '%', .lit '('] := by decide
 
 end St4sd.C17
